@@ -185,6 +185,13 @@ type env struct {
 	rs     map[[3]int][]*utils.ReedSolomonEncoder // field -> shared encoders (index H-1)
 }
 
+// srcModified: Scale changed the barcode it was given.
+type srcModified struct{ what string }
+
+func (s srcModified) Error() string {
+	return "Scale modified the barcode passed to it: " + s.what
+}
+
 func encodeCall(c *Call, e *env, buf []byte) (barcode.Barcode, error) {
 	s := string(buf)
 	switch c.Fn {
@@ -264,13 +271,29 @@ func encodeCall(c *Call, e *env, buf []byte) (barcode.Barcode, error) {
 				return nil, errors.New("scale source: " + err.Error())
 			}
 		}
-		if c.Fill == 0 {
-			return barcode.Scale(src, c.I1, c.I2)
+		// the barcode handed to Scale is an argument like any other: it must come back unchanged
+		// (private sources only: a shared one is being read by other callers at the same time)
+		private := !(c.Share && e != nil && e.shared[callKey(c.Src)] != nil)
+		var before observation
+		if private {
+			before = observe(src)
 		}
-		if c.Fill < 0 {
-			return barcode.ScaleWithFill(src, c.I1, c.I2, nil)
+		var out barcode.Barcode
+		var err error
+		switch {
+		case c.Fill == 0:
+			out, err = barcode.Scale(src, c.I1, c.I2)
+		case c.Fill < 0:
+			out, err = barcode.ScaleWithFill(src, c.I1, c.I2, nil)
+		default:
+			out, err = barcode.ScaleWithFill(src, c.I1, c.I2, fillColor(c.Fill))
 		}
-		return barcode.ScaleWithFill(src, c.I1, c.I2, fillColor(c.Fill))
+		if private {
+			if d := before.diff(observe(src)); d != "" {
+				return nil, srcModified{d}
+			}
+		}
+		return out, err
 	}
 	return nil, errors.New("simnode: unknown fn " + c.Fn)
 }
@@ -374,6 +397,12 @@ func execCall(c *Call, e *env, keep *[]retained, slot *CallResult) {
 		if backing[i] != 0xA7 {
 			slot.ArgMod = true
 		}
+	}
+	if sm, ok := err.(srcModified); ok {
+		slot.Class = "err"
+		slot.Err = sm.Error()
+		slot.ArgMod = true
+		return
 	}
 	if err != nil {
 		slot.Class = "err"
